@@ -68,6 +68,12 @@ def api_paths_agree(obj, b, key, case, files=False):
     return vs
 
 
+def first_byte_diff(a, b):
+    n = min(len(a), len(b))
+    i = next((k for k in range(n) if a[k] != b[k]), n)
+    return {"offset": i, "a": a[i:i + 12].hex(), "b": b[i:i + 12].hex()}
+
+
 def norm_name(s, limit=32):
     """N10: longest prefix whose UTF-8 form fits `limit` bytes."""
     if s is None:
